@@ -527,8 +527,21 @@ def gen_long(rng):
     for i, a, w, per in people:
         for t, ev in per[:tmax]:
             rows.append((i, a, t, ev, w))
-    rng.shuffle(rows)
-    return {'rows': rows, 'index': rng.choice(['range', 'shift', 'shuffle']), 'formula': rng.choice(['A*C(t)', 'C(t)*A', 'A + C(t) + A:C(t)'])}
+    order = rng.choice(['shuffled', 'shuffled', 'by-id-time-descending', 'by-id-time-permuted', 'sorted'])
+    if order == 'shuffled':
+        rng.shuffle(rows)
+    elif order != 'sorted':
+        # grouped by ascending id (as after a sort on id only) but not chronological within id
+        out = []
+        for pid_ in sorted({r[0] for r in rows}):
+            grp = sorted([r for r in rows if r[0] == pid_], key=lambda r: r[2])
+            if order == 'by-id-time-descending':
+                grp.reverse()
+            else:
+                rng.shuffle(grp)
+            out += grp
+        rows = out
+    return {'rows': rows, 'order': order, 'index': rng.choice(['range', 'shift', 'shuffle']), 'formula': rng.choice(['A*C(t)', 'C(t)*A', 'A + C(t) + A:C(t)'])}
 
 
 def coq_pp(rows):
